@@ -61,6 +61,10 @@ def main(argv):
         if ml != rl:
             dis += 1
     c.sample({"enc_int": [[v, x] for v, x in zip(ints[:3] + ints[-2:], r[:3] + r[-2:])]})
+    # extraction + OCaml driver cross-checked against the kernel's VM on a sample of the same cases
+    idx = rng.sample(range(len(lines)), 200)
+    codec.crosscheck_extraction(c, cd, [lines[i] for i in idx] + [redecode[i][1] for i in idx[:100] if i < len(redecode)],
+                                [m[i] for i in idx] + [m2[i] for i in idx[:100] if i < len(redecode)])
 
     # ---- OIDs and request messages
     lines, expect = [], []
